@@ -313,6 +313,9 @@ var spaceAsciiSet = makeASCIISet(" \t\r\n\f")
 
 // returns true if s is a whitespace-separated list that includes val.
 func matchInclude(val, s string, ignoreCase bool) bool {
+	if val == "" { // an empty operand represents nothing
+		return false
+	}
 	for s != "" {
 		i := spaceAsciiSet.index(s)
 		if i == -1 {
@@ -348,7 +351,7 @@ func attributeDashMatch(key, val string, n *html.Node, ignoreCase bool) bool {
 func attributePrefixMatch(key, val string, n *html.Node, ignoreCase bool) bool {
 	return matchAttribute(n, key,
 		func(s string) bool {
-			if strings.TrimSpace(s) == "" {
+			if val == "" || strings.TrimSpace(s) == "" {
 				return false
 			}
 			if ignoreCase {
@@ -363,7 +366,7 @@ func attributePrefixMatch(key, val string, n *html.Node, ignoreCase bool) bool {
 func attributeSuffixMatch(key, val string, n *html.Node, ignoreCase bool) bool {
 	return matchAttribute(n, key,
 		func(s string) bool {
-			if strings.TrimSpace(s) == "" {
+			if val == "" || strings.TrimSpace(s) == "" {
 				return false
 			}
 			if ignoreCase {
@@ -378,7 +381,7 @@ func attributeSuffixMatch(key, val string, n *html.Node, ignoreCase bool) bool {
 func attributeSubstringMatch(key, val string, n *html.Node, ignoreCase bool) bool {
 	return matchAttribute(n, key,
 		func(s string) bool {
-			if strings.TrimSpace(s) == "" {
+			if val == "" || strings.TrimSpace(s) == "" {
 				return false
 			}
 			if ignoreCase {
